@@ -28,6 +28,7 @@ import (
 	"github.com/syndtr/goleveldb/leveldb"
 	"github.com/syndtr/goleveldb/leveldb/opt"
 	"github.com/syndtr/goleveldb/leveldb/storage"
+	"github.com/syndtr/goleveldb/leveldb/util"
 	"verifharness/lib/vlib"
 )
 
@@ -58,6 +59,7 @@ type runCfg struct {
 	Snappers    int    `json:"snappers"`
 	Iters       int    `json:"iters"`
 	Txn         bool   `json:"txn"`
+	Compactor   bool   `json:"compactor"` // a goroutine calling CompactRange
 	Groups      int    `json:"groups"`
 	WriteBuffer int    `json:"write_buffer"`
 	TableSize   int    `json:"table_size"`
@@ -83,6 +85,7 @@ func stressCfg(r *vlib.RNG, idx int) runCfg {
 	c.Snappers = r.Range(1, 3)
 	c.Iters = r.Range(1, 3)
 	c.Txn = r.Chance(2, 3)
+	c.Compactor = r.Chance(1, 3)
 	c.Groups = r.Range(2, 6)
 	c.WriteBuffer = []int{300, 600, 1200, 4096}[r.Intn(4)]
 	c.TableSize = []int{512, 1024, 2048}[r.Intn(3)]
@@ -111,6 +114,7 @@ func traceCfg(r *vlib.RNG, idx int) runCfg {
 	c.Snappers = 1
 	c.Iters = 1
 	c.Txn = r.Chance(1, 2)
+	c.Compactor = r.Chance(1, 4)
 	c.Groups = 2
 	c.WriteBuffer = r.Range(150, 500)
 	c.TableSize = 512
@@ -248,6 +252,13 @@ type obsGet struct {
 	dv            []uint32
 }
 
+type obsHas struct {
+	key           string
+	has           bool
+	before, after uint64
+	dv            []uint32
+}
+
 type obsView struct {
 	what          string // "snapshot" | "snapshot-iterator" | "iterator"
 	exact         bool
@@ -273,6 +284,7 @@ type runner struct {
 	done   []uint32
 	wlogs  [][]wrec
 	gets   [][]obsGet
+	hass   [][]obsHas
 	views  [][]obsView
 	txns   []*txnRec
 	mu     sync.Mutex
@@ -495,6 +507,31 @@ func (r *runner) txnUser(w int, rng *vlib.RNG) {
 	}
 }
 
+// compactor calls CompactRange over everything: takes the write lock, rotates the memdb, forces table
+// compactions while snapshots and iterators are alive.  It writes nothing (role id beyond the writers).
+func (r *runner) compactor(id int, rng *vlib.RNG) {
+	if r.h.tr != nil {
+		r.h.tr.register(role{reader: false, id: id})
+	}
+	n := 0
+	for !r.stopped() && (r.cfg.Batches == 0 || n < 1) {
+		n++
+		if r.cfg.Batches == 0 {
+			time.Sleep(time.Duration(5+rng.Intn(40)) * time.Millisecond)
+		} else {
+			time.Sleep(time.Duration(300+rng.Intn(1500)) * time.Microsecond)
+		}
+		if r.stopped() {
+			return
+		}
+		if err := r.db.CompactRange(util.Range{}); err != nil {
+			r.violate(fmt.Sprintf("CompactRange failed: %v", err), nil)
+			return
+		}
+		r.count("compact_range_calls", 1)
+	}
+}
+
 func (r *runner) getter(id, slot int, rng *vlib.RNG) {
 	tr := r.h.tr
 	if tr != nil {
@@ -512,6 +549,20 @@ func (r *runner) getter(id, slot int, rng *vlib.RNG) {
 			key = gkey(rng.Intn(r.cfg.Groups), rng.Intn(4))
 		}
 		dv := r.doneVec()
+		if tr == nil && rng.Chance(1, 8) {
+			// Has: same read path, presence only
+			before := leveldb.VerifSeq(r.db)
+			has, err := r.db.Has(key, nil)
+			after := leveldb.VerifSeq(r.db)
+			if err != nil {
+				r.violate(fmt.Sprintf("Has failed: %v", err), nil)
+				return
+			}
+			if len(r.hass[slot]) < 100000 {
+				r.hass[slot] = append(r.hass[slot], obsHas{string(key), has, before, after, dv})
+			}
+			continue
+		}
 		before := leveldb.VerifSeq(r.db)
 		v, err := r.db.Get(key, nil)
 		after := leveldb.VerifSeq(r.db)
@@ -827,6 +878,27 @@ func (r *runner) checkOracle(o *oracle) {
 			}
 		}
 	}
+	nHas := 0
+	for _, hs := range r.hass {
+		for _, h := range hs {
+			nHas++
+			lb := r.lowerBound(o, progSeq, h.before, h.dv)
+			ok := (o.at(h.key, lb) != nil) == h.has
+			if !ok {
+				for _, s := range o.changes(h.key, lb, h.after) {
+					if (o.at(h.key, s) != nil) == h.has {
+						ok = true
+						break
+					}
+				}
+			}
+			if !ok {
+				r.violate(fmt.Sprintf("Has(%s) = %v agrees with the committed state at no sequence number in [%d,%d]", h.key, h.has, lb, h.after), nil)
+				return
+			}
+		}
+	}
+	r.count("has_checked", nHas)
 	cmpView := func(v obsView, s uint64) (string, bool) {
 		keys := r.keys
 		if v.partial != nil {
@@ -969,6 +1041,7 @@ func doRun(cfg runCfg) (rr runResult) {
 	rng := vlib.NewRNG(cfg.Seed)
 	nReaders := cfg.Getters + cfg.Snappers + cfg.Iters
 	r.gets = make([][]obsGet, cfg.Getters)
+	r.hass = make([][]obsHas, cfg.Getters)
 	r.views = make([][]obsView, cfg.Snappers+cfg.Iters)
 	var wgW, wgR sync.WaitGroup
 	for w := 0; w < cfg.Writers; w++ {
@@ -978,6 +1051,10 @@ func doRun(cfg runCfg) (rr runResult) {
 	if cfg.Txn {
 		g := rng.Fork()
 		r.guard("transaction user", &wgW, func() { r.txnUser(nw-1, g) })
+	}
+	if cfg.Compactor {
+		g := rng.Fork()
+		r.guard("compactor", &wgW, func() { r.compactor(nw, g) })
 	}
 	id := 0
 	for i := 0; i < cfg.Getters; i++ {
@@ -1009,15 +1086,15 @@ func doRun(cfg runCfg) (rr runResult) {
 	hung := false
 	select {
 	case <-finished:
-	case <-time.After(time.Duration(cfg.DurMs)*time.Millisecond + 30*time.Second):
+	case <-time.After(time.Duration(cfg.DurMs)*time.Millisecond + 60*time.Second):
 		hung = true
 		atomic.StoreInt32(&r.stop, 1)
-		r.violate("workers did not finish within 30 s after the end of the run (a call blocks)", nil)
+		r.violate("workers did not finish within 60 s after the end of the run (a call blocks)", nil)
 	}
-	if !hung {
-		if cfg.Trace {
-			leveldb.VerifWaitIdle(db, 3*time.Second)
-		}
+	idle := true
+	if !hung && cfg.Trace {
+		idle = leveldb.VerifWaitIdle(db, 10*time.Second)
+		r.h.tr.close()
 	}
 	leveldb.VerifSetHooks(nil, nil)
 	if cfg.Trace {
@@ -1088,7 +1165,10 @@ func doRun(cfg runCfg) (rr runResult) {
 	for _, v := range r.views {
 		rr.Reads += len(v)
 	}
-	if cfg.Trace && jerr == nil {
+	if cfg.Trace && !idle {
+		rr.Counts["traces_skipped_db_not_idle"]++
+	}
+	if cfg.Trace && jerr == nil && idle {
 		jm := map[uint64]orec{}
 		for _, e := range recs {
 			jm[e.seq] = e
@@ -1166,7 +1246,7 @@ func main() {
 		replay(a, res)
 		return
 	}
-	nChildren, budget, nTraces := 12, 22*time.Second, 28
+	nChildren, budget, nTraces := 12, 18*time.Second, 24
 	if a.Thorough() {
 		budget, nTraces = 15*time.Minute, 160
 	}
